@@ -105,37 +105,6 @@ theorem next_not_fit (h : Nat) (es : List Entry) (hlt : truncIndex h es < es.len
 theorem take_eq_self_iff' {α} (l : List α) (n : Nat) : l.take n = l ↔ l.length ≤ n :=
   ⟨fun h => by have := congrArg List.length h; simp at this; omega, List.take_of_length_le⟩
 
-theorem result_is_longest_fitting_prefix (h : Nat) (es : List Entry) (hfit : h = maxUInt → csize es ≤ h) :
-    (truncateMetadata h es).1 <+: es ∧ csize (truncateMetadata h es).1 ≤ h ∧
-    ∀ p, p <+: es → csize p ≤ h → p.length ≤ (truncateMetadata h es).1.length := by
-  unfold truncateMetadata
-  split
-  · rename_i hm
-    refine ⟨List.prefix_refl _, hfit hm, fun p hp _ => hp.length_le⟩
-  · refine ⟨List.take_prefix _ _, csize_take_truncIndex h es, fun p hp hc => ?_⟩
-    have hlen := hp.length_le
-    have : p = es.take p.length := by
-      obtain ⟨t, rfl⟩ := hp
-      simp
-    rw [this] at hc
-    have := le_truncIndex h es p.length hlen hc
-    simp only [List.length_take]
-    omega
-
-theorem truncated_flag_iff_dropped (h : Nat) (es : List Entry) :
-    ((truncateMetadata h es).2 = true ↔ (truncateMetadata h es).1 ≠ es) ∧
-    ((truncateMetadata h es).2 = true ↔ (truncateMetadata h es).1.length < es.length) := by
-  unfold truncateMetadata
-  split
-  · simp
-  · have := truncIndex_le h es
-    simp only [decide_eq_true_eq, ne_eq, take_eq_self_iff', List.length_take]
-    omega
-
-
-
-
-
 theorem csize_filter_counted (l : List Entry) : csize (l.filter counted) = csize l := by
   induction l with
   | nil => rfl
@@ -261,9 +230,9 @@ theorem holds_self (h : Nat) (es : List Entry) (hfit : csize es ≤ h) : Holds h
 theorem csize_filter_not (l : List Entry) : csize (l.filter (fun e => !(counted e))) = 0 := by
   rw [← csize_filter_counted, filter_counted_filter_not]; rfl
 
-theorem fixed_holds (h : Nat) (es : List Entry) (hfit : h = maxUInt → csize es ≤ h) :
-    Holds h es (truncateMetadataFixed h es).1 (truncateMetadataFixed h es).2 := by
-  unfold truncateMetadataFixed
+theorem statement_holds (h : Nat) (es : List Entry) (hfit : h = maxUInt → csize es ≤ h) :
+    Holds h es (truncateMetadata h es).1 (truncateMetadata h es).2 := by
+  unfold truncateMetadata
   split
   · rename_i hm; exact holds_self h es (hfit hm)
   · obtain ⟨l1, l2, l3⟩ := loop_conds h es
@@ -358,55 +327,32 @@ theorem metaVerdict_ok_iff (h : Nat) (inp out : List Entry) (flag : Bool) :
 
 
 theorem code_verdict (h : Nat) (es : List Entry) (hfit : h = maxUInt → csize es ≤ h) :
-    metaVerdict h es (truncateMetadata h es).1 (truncateMetadata h es).2 =
-      if (es.drop (truncateMetadata h es).1.length).any (fun e => !(counted e)) then .traceBinDropped else .ok := by
+    metaVerdict h es (truncateMetadata h es).1 (truncateMetadata h es).2 = .ok :=
+  (metaVerdict_ok_iff _ _ _ _).2 (statement_holds h es hfit)
+
+/-- the shape of the result: the longest fitting prefix of the entry list, plus the grpc-trace-bin
+    entries behind it -/
+theorem result_is_longest_fitting_prefix (h : Nat) (es : List Entry) (hfit : h = maxUInt → csize es ≤ h) :
+    ∃ n, (truncateMetadata h es).1 = es.take n ++ (es.drop n).filter (fun e => !(counted e)) ∧
+      csize (es.take n) ≤ h ∧ ∀ p, p <+: es → csize p ≤ h → p.length ≤ n := by
   unfold truncateMetadata
   split
   · rename_i hm
-    simp only [List.drop_length, List.any_nil]
-    exact (metaVerdict_ok_iff _ _ _ _).2 (holds_self h es (hfit hm))
-  · simp only []
-    have hidx := truncIndex_le h es
-    have hlen : (es.take (truncIndex h es)).length = truncIndex h es := by simp; omega
-    rw [hlen]
-    obtain ⟨l1, l2, l3⟩ := loop_conds h es
-    have hK := keepFirst_take (truncIndex h es) es
-    by_cases hany : (es.drop (truncIndex h es)).any (fun e => !(counted e)) = true
-    · rw [if_pos hany]
-      have hT : (es.drop (truncIndex h es)).filter (fun e => !(counted e)) ≠ [] := by
-        intro hnil
-        rw [List.filter_eq_nil_iff] at hnil
-        rw [List.any_eq_true] at hany
-        obtain ⟨x, hx, hp⟩ := hany
-        exact hnil x hx hp
-      have hlt : truncIndex h es < es.length := by
-        apply Nat.lt_of_not_le
-        intro hge
-        have : es.drop (truncIndex h es) = [] := by simp; omega
-        rw [this] at hT; simp at hT
-      obtain ⟨nxt, rest, d1, d2, d3⟩ := next_not_fit h es hlt
-      unfold metaVerdict
-      rw [if_neg (by rw [List.isPrefixOf_iff_prefix.2 l1]; simp), if_neg (by omega),
-        if_neg (by rw [(nextFits_false_iff _ _ _).2 l3]; simp),
-        if_neg (by rw [hK]; intro heq; exact hT (List.append_right_eq_self.1 heq.symm)),
-        if_pos (List.isPrefixOf_iff_prefix.2 (List.take_prefix _ _))]
-      unfold prefixShapeVerdict
-      rw [hlen, d1]
-      simp [d2, hlt]
-    · rw [if_neg hany]
-      apply (metaVerdict_ok_iff _ _ _ _).2
-      have hT : (es.drop (truncIndex h es)).filter (fun e => !(counted e)) = [] := by
-        rw [List.filter_eq_nil_iff]
-        intro x hx hp
-        exact hany (List.any_eq_true.2 ⟨x, hx, hp⟩)
-      refine ⟨l1, l2, l3, by rw [hK, hT]; simp, ?_⟩
-      simp only [decide_eq_true_eq, ne_eq, take_eq_self_iff']
-      omega
+    exact ⟨es.length, by simp, by simpa using hfit hm, fun p hp _ => hp.length_le⟩
+  · refine ⟨truncIndex h es, rfl, csize_take_truncIndex h es, fun p hp hc => ?_⟩
+    have hlen := hp.length_le
+    have : p = es.take p.length := by
+      obtain ⟨t, rfl⟩ := hp
+      simp
+    rw [this] at hc
+    exact le_truncIndex h es p.length hlen hc
 
-
-
-
-
+theorem truncated_flag_iff_dropped (h : Nat) (es : List Entry) (hfit : h = maxUInt → csize es ≤ h) :
+    ((truncateMetadata h es).2 = true ↔ (truncateMetadata h es).1 ≠ es) ∧
+    ((truncateMetadata h es).2 = true ↔ (truncateMetadata h es).1.length < es.length) := by
+  refine ⟨(statement_holds h es hfit).2.2.2.2, ?_⟩
+  unfold truncateMetadata
+  split <;> simp
 
 theorem exists_prefix_of_filter_prefix {α} (f : α → Bool) (es q : List α) (hq : q <+: es.filter f) :
     ∃ p, p <+: es ∧ p.filter f = q := by
@@ -429,13 +375,8 @@ theorem counted_entries_longest_fitting_prefix (h : Nat) (es : List Entry) (hfit
     (truncateMetadata h es).1.filter counted <+: es.filter counted ∧
     csize ((truncateMetadata h es).1.filter counted) ≤ h ∧
     ∀ q, q <+: es.filter counted → csize q ≤ h → q.length ≤ ((truncateMetadata h es).1.filter counted).length := by
-  obtain ⟨h1, h2, h3⟩ := result_is_longest_fitting_prefix h es hfit
-  refine ⟨h1.filter _, by rw [csize_filter_counted]; exact h2, fun q hq hc => ?_⟩
-  obtain ⟨p, hp, rfl⟩ := exists_prefix_of_filter_prefix counted es q hq
-  rw [csize_filter_counted] at hc
-  have hpl := h3 p hp hc
-  have : p <+: (truncateMetadata h es).1 := List.prefix_of_prefix_length_le hp h1 hpl
-  exact (this.filter _).length_le
+  have H := statement_holds h es hfit
+  exact ⟨H.1, by rw [csize_filter_counted]; exact H.2.1, holds_longest H⟩
 
 theorem take_truncIndex_filter (h : Nat) (es : List Entry) :
     (es.take (truncIndex h es)).filter counted
@@ -449,32 +390,25 @@ theorem take_truncIndex_filter (h : Nat) (es : List Entry) :
       · simp [truncIndex, hk, hl, counted_of_ne hk]
       · simp [truncIndex, hk, hl, counted_of_ne hk, ih (h - entryLen e)]
 
+theorem filter_not_of_all_counted (l : List Entry) (hl : ∀ e ∈ l, counted e = true) :
+    l.filter (fun e => !(counted e)) = [] := by
+  rw [List.filter_eq_nil_iff]
+  intro e he hc
+  simp [hl e he] at hc
+
 theorem trace_bin_not_counted (h : Nat) (es : List Entry) :
     (truncateMetadata h es).1.filter counted = (truncateMetadata h (es.filter counted)).1 := by
   unfold truncateMetadata
   split
   · rfl
-  · exact take_truncIndex_filter h es
+  · simp only []
+    rw [List.filter_append, filter_counted_filter_not, List.append_nil, take_truncIndex_filter,
+      filter_not_of_all_counted ((es.filter counted).drop _) (fun e he => (List.mem_filter.1 (List.mem_of_mem_drop he)).2),
+      List.append_nil]
 
-theorem trace_bin_always_kept_partial (h : Nat) (pre post : List Entry) (e : Entry)
-    (hk : e.key = traceBin) (hpre : csize pre ≤ h) :
-    pre ++ [e] <+: (truncateMetadata h (pre ++ e :: post)).1 ∧ e ∈ (truncateMetadata h (pre ++ e :: post)).1 := by
-  have hp : pre ++ [e] <+: pre ++ e :: post := ⟨post, by simp⟩
-  have key : pre ++ [e] <+: (truncateMetadata h (pre ++ e :: post)).1 := by
-    by_cases hm : h = maxUInt
-    · simp [truncateMetadata, hm]
-    · obtain ⟨h1, _, h3⟩ := result_is_longest_fitting_prefix h (pre ++ e :: post) (fun x => absurd x hm)
-      have hc : csize (pre ++ [e]) ≤ h := by
-        simp [csize_append, csize, not_counted_of_eq hk]; exact hpre
-      exact List.prefix_of_prefix_length_le hp h1 (h3 _ hp hc)
-  exact ⟨key, key.subset (by simp)⟩
-
-theorem trace_bin_always_kept_counterexample :
-    ¬ ∀ (h : Nat) (es : List Entry) (e : Entry), e ∈ es → e.key = traceBin → e ∈ (truncateMetadata h es).1 := by
-  intro H
-  have := H 4 [⟨asciiBytes "bigkey", asciiBytes "bigvalue"⟩, ⟨traceBin, [116]⟩] ⟨traceBin, [116]⟩ (by decide) rfl
-  revert this
-  decide
+theorem trace_bin_always_kept (h : Nat) (es : List Entry) (hfit : h = maxUInt → csize es ≤ h)
+    (e : Entry) (he : e ∈ es) (hk : e.key = traceBin) : e ∈ (truncateMetadata h es).1 :=
+  holds_trace_bin_kept (statement_holds h es hfit) e he hk
 
 theorem message_le_limit (m : Nat) (data : Bytes) (hlen : data.length ≤ maxUInt) :
     (truncateMessage m data).1 = data.take m ∧ (truncateMessage m data).1.length ≤ m ∧
